@@ -7,9 +7,9 @@ ALL = ["C%02d" % i for i in range(1, 53)]
 
 CLAIMED = {
  "C45": dict(
-   text="Kernel: location type IDs round-trip: for address locations (arbitrary 8 address bytes), transaction/script locations (three arbitrary ID bytes), string and identifier locations (0..3 arbitrary bytes without '.'), each with a qualified identifier of 0..3 arbitrary bytes, Location.TypeID followed by the kind's decoder returns the same location and the same qualified identifier (address locations: the contract name is its first component), without crashing; hex encoding/decoding and strings.SplitN run from source.",
-   note="Bounds as stated. Locations containing '.', the decoder dispatch table, type IDs and conversions of sema/static/external type graphs and run-time type constructors are outside the claim.",
-   design="5 C45"),
+   text="Kernels: (1) location type IDs round-trip: for address locations (arbitrary 8 address bytes), transaction/script locations (three arbitrary ID bytes), string and identifier locations (0..3 arbitrary bytes without '.'), each with a qualified identifier of 0..3 arbitrary bytes, Location.TypeID followed by the kind's decoder returns the same location and the same qualified identifier (address locations: the contract name is its first component), without crashing; hex encoding/decoding and strings.SplitN run from source. (2) checker <-> run-time conversion: for every primitive static type number 0..255 that has a checker type, ConvertSemaToPrimitiveStaticType(p.SemaType()) == p and both representations have the same type ID; for optional, variable- and constant-sized array (symbolic size), dictionary, unauthorized reference, capability and nested optional-array types over every such primitive, ConvertStaticToSemaType followed by ConvertSemaToStaticType yields an equal static type and the type IDs agree.",
+   note="Bounds as stated. Capability and the deprecated AuthAccount/PublicAccount primitive numbers (converted to other types by design) are excluded. Locations containing '.', composite/interface/intersection types and entitlement authorizations (need an elaborated program), the exported external (cadence.Type) representation and run-time type constructors are outside the claim.",
+   design="3 C45"),
  "C42": dict(
    text="CCF, scalar values and small containers: (1) round trip - for every value of each of the 14 fixed-width integer/Word/fixed-point kinds, Fix128/UFix128, Bool, Address (full width), Int/UInt (|x|<2^128), Int128/UInt128/Word128 (256-bit kinds in thorough), String and Path identifier (every valid UTF-8 text <=3 bytes), Optional(UInt8)/nil, arrays of <=2 UInt16, the real ccf.Encode followed by the real ccf.Decode - with fxamacker/cbor's stream encoder/decoder executed from source - succeeds and yields a value of the same kind and content; a dictionary of two entries with distinct symbolic keys encodes to the same bytes in both insertion orders and decodes to exactly those entries; a struct with two fields (type-definition message) round-trips with the same type ID and field values, its deterministic-mode encoding is the same for both declaration orders of the fields and the strict decoder accepts it; (2) decoder robustness - ccf.Decode never panics on every byte string <=3 bytes, every 1..2 (thorough 3) bytes after a type-and-value head and after a simple-type tag, and 1 (thorough 2) bytes as the value of each of 30 scalar simple types; (3) the canonical-order comparators of deterministic mode on three arbitrary pairwise-distinct keys of 0..3 bytes are strict total orders equal to the reference order and agree with the predicates the strict decoder enforces (which reject duplicates).",
    note="Part of C42: other composites (resources, events, enums, contracts, attachments), nested type definitions, type values, capabilities, intersection/entitlement-set ordering inside types and inputs longer than the stated lengths are outside. The cbor library's package-level tables are initialised by executing the relevant slice of its init function; sync.Pool buffers are modelled as always reused.",
